@@ -734,7 +734,7 @@ def _foreign(con, mod):
     import copy
 
     c = copy.copy(con)
-    c.verify = lambda reg, mutate_goal=None, _c=con, _m=mod: _c.verify(_m.make_registry(), mutate_goal)
+    c.verify = lambda reg, *a, _c=con, _m=mod, **kw: _c.verify(_m.make_registry(), *a, **kw)
     return c
 
 
